@@ -15,7 +15,8 @@ Definition wire_of (r : creq) : bytes := match client_serialize r with Some w =>
 Definition ex_chunked := ex_input None (BPieces [[120]; []; [121; 122]]) true false.
 Definition ex_bytes := ex_input None (BBytes [120; 121; 122]) false true.
 Definition ex_nobody := ex_input None BNone true false.
-Definition ex_bad := ex_input (Some false) (BBytes [120; 121; 122]) true false.
+(* chunked=False with a body (repaired by 85945a4: framed by Content-Length only) *)
+Definition ex_chunked_false := ex_input (Some false) (BBytes [120; 121; 122]) true false.
 
 Definition cut3 (w : bytes) : list bytes := [firstn 40 w; firstn 100 (skipn 40 w); skipn 140 w].
 
@@ -35,28 +36,14 @@ Lemma ex_segmented :
   r_data (expected_rec r) = [120; 121; 122] /\ m_method (r_msg (expected_rec r)) = [80; 79; 83; 84].
 Proof. vm_compute. repeat split; reflexivity. Qed.
 
-(* chunked=False with a body: Content-Length: 3 on the head, chunked framing on the wire *)
-Lemma ex_refuted :
-  let r := built ex_bad in
-  build ex_bad = BOk r /\ i_chunked ex_bad = Some false /\
-  client_serialize r <> None /\ valid lim0 r = false /\ framing_ok r = false /\
-  body_bytes (c_body r) = [120; 121; 122] /\
-  digest (run_segs lim0 [] init [wire_of r] [] []) =
-    (RErr EBadMethod, [([80; 79; 83; 84], [47; 112], [51; 13; 10], [], true, None)]).
+Lemma ex_chunked_false_ok :
+  let r := built ex_chunked_false in
+  build ex_chunked_false = BOk r /\ i_chunked ex_chunked_false = Some false /\ c_chunked r = Some false /\
+  client_serialize r <> None /\ valid lim0 r = true /\
+  concat (cut3 (wire_of r)) = wire_of r /\
+  digest (run_segs lim0 [] init (cut3 (wire_of r)) [] []) =
+    (ROk [], [([80; 79; 83; 84], [47; 112], [120; 121; 122], [], true, None)]).
 Proof. vm_compute. repeat split; try reflexivity; discriminate. Qed.
-
-Lemma refuted_chunked_false :
-  exists i r w,
-    build i = BOk r /\ i_chunked i = Some false /\ client_serialize r = Some w /\
-    valid lim0 r = false /\ framing_ok r = false /\
-    body_bytes (c_body r) = [120; 121; 122] /\
-    digest (run_segs lim0 [] init [w] [] []) =
-      (RErr EBadMethod, [([80; 79; 83; 84], [47; 112], [51; 13; 10], [], true, None)]).
-Proof.
-  exists ex_bad, (built ex_bad), (wire_of (built ex_bad)).
-  destruct ex_refuted as (H1 & H2 & H3 & H4 & H5 & H6 & H7).
-  repeat split; assumption.
-Qed.
 
 Lemma ex_keepalive :
   (let r := built ex_chunked in valid lim0 r = true /\ md_has n_connection (i_headers ex_chunked) = false /\ close_of r = false) /\
